@@ -469,6 +469,34 @@ Theorem C14_kad_is_table_history :
 Proof. intros. unfold kreach, reach. apply krun_flat. Qed.
 Print Assumptions C14_kad_is_table_history.
 
+(* ---------------------------------------------------------------- displaced only to make room
+
+   If a stored peer's key is gone after an operation, then the operation stored a NEW key of the
+   same bucket (insert / add_known_peer), the bucket was full (>= K nodes), the displaced node was
+   replaceable (NotConnected / CannotConnect by its flag — never a ground-truth connected peer, see
+   C14_gt_connected_stored) and it was the first replaceable node of the bucket.  Nothing else ever
+   removes a peer. *)
+Theorem C14_displaced_only_for_room :
+  forall local K t o j n,
+  In n (nth j t []) ->
+  ~ key_in (n_key n) (nth j (fst (step local K t o)) []) ->
+  ilog2 (kxor local (op_key o)) = Some j /\ K <= length (nth j t []) /\ replaceable n = true /\
+  stores_op o = true /\ ~ key_in (op_key o) (nth j t []) /\
+  exists a c, nth j t [] = a ++ n :: c /\ Forall (fun x => replaceable x = false) a.
+Proof. exact step_displaced. Qed.
+Print Assumptions C14_displaced_only_for_room.
+
+(* a full bucket without a replaceable node turns every new key away (NoSlot; an add without
+   addresses is ignored): the table does not change *)
+Theorem C14_full_bucket_rejects :
+  forall local K t o i,
+  ilog2 (kxor local (op_key o)) = Some i -> K <= length (nth i t []) ->
+  Forall (fun x => replaceable x = false) (nth i t []) -> ~ key_in (op_key o) (nth i t []) ->
+  fst (step local K t o) = t /\
+  (snd (snd (step local K t o)) = 3 \/ snd (snd (step local K t o)) = 4).
+Proof. exact step_full_rejects. Qed.
+Print Assumptions C14_full_bucket_rejects.
+
 (* ---------------------------------------------------------------- the address stores of the entries
 
    AddrModel.v carries one AddressStore per node next to the table of Model.v: rrun = any history
